@@ -217,6 +217,11 @@ def program_correspondence(run, n_good, n_bad):
         if obs is not None and tree_has_nan(obs):
             run.count("discarded_nan_value")
             continue
+        if err is not None and "Overflow when unpacking long long" in err:
+            # an integer-valued expression of the generated program exceeds 2^63 (e.g. freq^3): torch.tensor(<huge python int>) raises.
+            # Absurd magnitudes are outside the physical range the property is about: unspecified, not compared.
+            run.count("discarded_integer_overflow_in_generated_expression")
+            continue
         n_leaves = len(tree_leaves(obs)) if obs else 0
         run.add_case(["prog", flavour, case["prog"], case["root"]], kind == "wellformed" and n_leaves >= 2)
         run.count(f"{flavour}_{kind}_" + ("imported" if obs is not None else "raised"))
